@@ -526,6 +526,11 @@ def owner_bound(prog: Program) -> RuleResult:
     return r
 
 
+def call_name_(c):
+    from ..astutil import call_name
+    return call_name(c)
+
+
 def id_memo(prog: Program) -> RuleResult:
     """'Whatever was created, related and garbage collected before ... leaves nothing behind that can make a new relation look already known.'  A
     descriptor is one object per class attribute and lives as long as the class: what it remembers about instances by their id() - pairs that
@@ -578,6 +583,17 @@ def id_memo(prog: Program) -> RuleResult:
         if ".property_descriptor." not in m.name and not m.name.endswith(".property_descriptor"):
             continue
         shared = {t.id for st in m.tree.body if isinstance(st, (ast.Assign, ast.AnnAssign)) for t in ([st.target] if isinstance(st, ast.AnnAssign) else st.targets) if isinstance(t, ast.Name)}
+        # ... and class-level collections (assigned in a class body without being a dataclass field of the instance): one object for every
+        # relation / descriptor of the process, reached as self.<name> / cls.<name> / <Class>.<name>
+        shared_cls = set()
+        for st in m.tree.body:
+            if isinstance(st, ast.ClassDef):
+                for b in st.body:
+                    if isinstance(b, ast.Assign) and isinstance(b.value, (ast.Call, ast.Dict, ast.Set, ast.List, ast.DictComp, ast.SetComp, ast.ListComp)) \
+                            and not (isinstance(b.value, ast.Call) and call_name_(b.value) in ("field", "TypeVar", "property")):
+                        shared_cls |= {t.id for t in b.targets if isinstance(t, ast.Name)}
+                    if isinstance(b, ast.AnnAssign) and isinstance(b.target, ast.Name) and "ClassVar" in src(b.annotation) and b.value is not None:
+                        shared_cls.add(b.target.id)
         bad = None
         for f in [f for f in prog.functions.values() if f.module is m]:
             keys = set()
@@ -591,13 +607,13 @@ def id_memo(prog: Program) -> RuleResult:
                     key, holder = x.slice, x.value
                 elif isinstance(x, ast.Call) and isinstance(x.func, ast.Attribute) and x.func.attr in ("add", "setdefault") and x.args:
                     key, holder = x.args[0], x.func.value
-                if key is None or not (isinstance(holder, ast.Name) and holder.id in shared):
+                if key is None or not ((isinstance(holder, ast.Name) and holder.id in shared) or (isinstance(holder, ast.Attribute) and holder.attr in shared_cls and isinstance(holder.value, ast.Name))):
                     continue
                 if any((isinstance(y, ast.Attribute) and y.attr in ("index", "instance_id")) or (isinstance(y, ast.Call) and isinstance(y.func, ast.Name) and y.func.id == "id") or (isinstance(y, ast.Name) and y.id in keys) for y in ast.walk(key)):
                     bad = bad or (f, x)
         r.check(bad is None, f"{m.name.split('.')[-1]}#no-shared-memo-by-index-or-id", site(bad[0], bad[1]) if bad else m.relpath, src(bad[1])[:80] if bad else "", "no module-level collection is keyed by a node index or an id()",
                 f"`{src(bad[1])[:70] if bad else ''}` ({bad[0].short if bad else ''}) remembers something under a graph node index / id(), which the next instance gets once the slot is free: relations "
-                "of a new role are inferred onto the role taker of a role that was collected long ago")
+                "of a new role are inferred onto the role taker of a role that was collected long ago, a relation between new instances looks handled already")
     return r
 
 
